@@ -122,6 +122,18 @@ type KnownFinding struct {
 	What     string `json:"what"`
 }
 
+// KnownIDs returns the rule|construct ids recorded with status "known" for a property.
+func KnownIDs(root, property string) map[string]bool {
+	out := map[string]bool{}
+	ks, _ := loadKnown(root)
+	for _, k := range ks {
+		if k.Property == property && k.Status == "known" {
+			out[k.ID] = true
+		}
+	}
+	return out
+}
+
 type knownFile struct {
 	Comment  string         `json:"comment"`
 	Findings []KnownFinding `json:"findings"`
